@@ -323,7 +323,37 @@ fn case() -> impl Strategy<Value = Case> {
         })
 }
 
+/// Writes a few authentic wrapped messages as seed corpus of the `c16_wrapped` fuzz target.
+fn seed_corpus(ctx: &Ctx) {
+    let dir = ctx.verif_dir.join("fuzz").join("corpus").join("c16_wrapped");
+    if dir.exists() {
+        return;
+    }
+    std::fs::create_dir_all(&dir).ok();
+    let rt = tokio::runtime::Builder::new_current_thread().enable_all().build().unwrap();
+    rt.block_on(async {
+        MockClock::set_system_time(Duration::from_micros(1_700_000_000_000_000));
+        let env = EphEnv::new(64).await;
+        let (tx, _rx) = env.pair(&SigningKey::from_bytes(&[0xD1; 32]));
+        for (i, body) in ["", "a", "hello panda", "üñí", "0123456789012345678901234567890123456789"].iter().enumerate() {
+            tx.publish(body.to_string()).await.unwrap();
+            for b in env.take_published() {
+                std::fs::write(dir.join(format!("seed-{i}")), b).ok();
+            }
+        }
+    });
+}
+
 pub fn run(mut ctx: Ctx) -> ! {
+    seed_corpus(&ctx);
+    ctx.run_fuzz(
+        engine::fuzz::FuzzSpec {
+            target: "c16_wrapped",
+            rule: "libFuzzer over the wrapped-message decoder (hook verif_wrapped_from_bytes): whatever bytes it accepts must carry a valid signature of the reported author over (version, timestamp, logical, body) by the independent check; corpus + saved crash inputs are re-checked in every tier, the campaign runs in thorough; non-trivial = input parses as a wrapped tuple",
+            thorough_secs: 90,
+        },
+        crate::fuzz_c16::c16_oracle,
+    );
     ctx.assume("wall clock = p2panda-core's mock clock (feature test_utils), set from the generated case; readings stay far below u64::MAX");
     ctx.assume("mutants the independent check accepts but the code rejects are only counted (label), not asserted");
     ctx.run_prop(
